@@ -666,6 +666,10 @@ def _contains(token: Token, left: object, right: object) -> bool:
         return False
     if isinstance(left, str):
         return str(right) in left
+    if isinstance(left, (list, tuple, dict, range)):
+        # Liquid equality, not Python's. Remember 1 == True in Python, and that
+        # `right` might not be hashable when `left` is a dict.
+        return any(_eq(item, right) for item in left)
     if isinstance(left, Collection):
         return right in left
 
